@@ -113,7 +113,19 @@ def _slice_faces(run, P):
                 filt = filt or (th[2] if th[3] else None)
         probs = []
         if src is None:
-            run.incomplete("IDX/subgrid", c, where(f, call), f"how {name} is obtained is not understood (no gather from a connectivity table recognised)")
+            # which connectivity tables does the member set depend on at all?  "The {dim}s of the selected faces" can only be computed from a table that relates
+            # {dim}s to FACES (rows of face_* gathered with the faces, or rows of *_face tested against them).  A derivation that only consults tables
+            # without faces (e.g. edges whose two end nodes were both kept) defines a different set: an edge between two retained nodes need not bound a retained face.
+            nodes, _nm = defs.closure(ast.Name(id=name, ctx=ast.Load()))
+            tables = {x.attr for e in nodes for x in ast.walk(e) if isinstance(x, ast.Attribute) and x.attr.endswith("_connectivity")}
+            kind = dim[2:]
+            face_tables = {f"face_{kind}_connectivity", f"{kind}_face_connectivity"}
+            own = {t for t in tables if t != table and not (name != isel["n_node"][0] and t == "face_node_connectivity")}
+            if own and not (own & face_tables):
+                run.violation("IDX/subgrid", c, where(f, call), f"the {kind}s of the subgrid are selected through {sorted(own)} only - no table relating {kind}s to faces is consulted: a {kind} whose "
+                              f"{'end nodes are' if kind == 'edge' else 'neighbours are'} all retained need not belong to a retained face, so the subgrid gets {kind}s (and data positions) that no selected face has")
+            else:
+                run.incomplete("IDX/subgrid", c, where(f, call), f"how {name} is obtained is not understood (no gather from a connectivity table recognised; tables consulted: {sorted(tables)})")
             continue
         else:
             t, idx, st = src
